@@ -14,7 +14,10 @@ pub fn c06(o: &Oracle, thorough: bool, seed: u64, rep: &Report) {
         let got = observe(&ev);
         let real = v >= 1 && v <= o.n_classes as u32;
         let exp = json!({"value": v, "name": o.name_of(v as u16), "class": o.class_of(v as u16), "dname": o.name_of(v as u16),
-                         "dclass": o.class_of(v as u16), "invalid": !real, "consistent": true, "is_default": v == 0});
+                         "dclass": o.class_of(v as u16), "invalid": !real, "consistent": true});
+        if got["is_default"] != json!(v == 0) {
+            advise(rep, ev.clone(), json!({"is_default": v == 0}), "HandRank::default() is no longer the conversion of 0");
+        }
         for (k, e) in exp.as_object().unwrap() {
             if &got[k] != e {
                 viol(rep, ev.clone(), exp.clone(), "converted hand rank does not describe the poker class whose ordinal is the value");
@@ -69,7 +72,42 @@ pub fn c06(o: &Oracle, thorough: bool, seed: u64, rep: &Report) {
         rep.eval(c * 3);
         rep.space(&format!("sampled {}-card hands", n), false, c);
     }
-    rep.distinct(65536 + choose(52, 5));
+    // the rank a container reports is always the conversion of its value -- also for non-hands (repeated
+    // cards, blanks), and through both rank-returning entry points: Invalid for both exactly when 0
+    let bad = AtomicU64::new(0);
+    let cnt = AtomicU64::new(0);
+    par_chunks(53, |first| {
+        for n in 5..=7usize {
+            let mut local = 0u64;
+            for_each_multiset_with_first(53, n, first, |m| {
+                local += 1;
+                if n > 5 && mix(seed ^ 0x66, local ^ ((first as u64) << 40)) % (if n == 6 { 16 } else { 128 }) != 0 {
+                    return;
+                }
+                let mut w: Vec<u32> = m.iter().map(|&k| if k == 52 { 0 } else { o.cards[k].w }).collect();
+                // not always sorted: rotate by a seeded amount
+                let r = (mix(seed, local) % n as u64) as usize;
+                w.rotate_left(r);
+                let h = Hand::from_words(&w);
+                let ok = guarded(|| {
+                    let a = hand_rank(&h);
+                    let b = hand_rank_validated(&h);
+                    a == HandRank::from(a.value) && b == HandRank::from(b.value) && a.is_a_valid_hand_rank() && b.is_a_valid_hand_rank()
+                        && (a.value == 0) == a.is_invalid() && (b.value == 0) == b.is_invalid()
+                });
+                cnt.fetch_add(1, Ordering::Relaxed);
+                if ok != Ok(true) && bad.fetch_add(1, Ordering::Relaxed) < 5 {
+                    let op = if n == 5 { "rank5" } else { "rankn" };
+                    viol(rep, json!({"op":op,"words":hilo_arr(&w)}), json!({"consistent_validated": true, "rank_consistent": true}),
+                         "a reported rank is not the conversion of its own value (name / class do not describe the value)");
+                }
+            });
+        }
+    });
+    let c = cnt.load(Ordering::Relaxed);
+    rep.eval(c * 2);
+    rep.space("five-slot multisets over {52 cards, blank} (all) and sampled six/seven-slot ones: reported ranks are conversions of their value", false, c);
+    rep.distinct(65536 + choose(52, 5) + c);
 }
 
 pub fn c07(o: &Oracle, thorough: bool, _seed: u64, rep: &Report) {
